@@ -469,7 +469,7 @@ PROPS = {
              "typed API used to recurse on the cause chain (finding F8, fixed by 5c75dfb) and is probed with chains of "
              "1000 and 200000 causes on an 8 MiB stack",
              oracle="model"),
-    "C10": P(["C10_layout_or_version_bump", "C10_other_version_rejected", "C10_written_version", "C10_current_files_same_answers", "C10_pinned_files_parse", "C10_pinned_files_same_answers", "C10_writers_differ_in_class_rows_only", "C10_domain_needed"],
+    "C10": P(["C10_layout_or_version_bump", "C10_other_version_rejected", "C10_written_version", "C10_current_files_same_answers", "C10_pinned_files_parse", "C10_pinned_files_same_answers", "C10_writers_differ_in_class_rows_only", "C10_domain_needed", "C10_snapshot_bytes_same_answers", "C10_snapshot_bytes_parse"],
              "Theorems: the record layouts, sentinel defaults and magic read from the current source equal the pinned "
              "release's unless the version constant differs (guard re-proved against the regenerated Extracted.v on "
              "every run); any buffer with another version word is rejected with the version error; with the pinned "
